@@ -223,6 +223,14 @@ func drive(args []string) int {
 		fmt.Println("INFRA: worker failure; result is inconclusive")
 		return 2
 	}
+	infraCount := 0
+	if ic, ok := total.(interface{ InfraCount() (int, []string) }); ok {
+		n, msgs := ic.InfraCount()
+		infraCount = n
+		for _, m := range msgs {
+			fmt.Println("INFRA:", m)
+		}
+	}
 
 	ks, err := loadKnown(filepath.Join(*verif, "known_findings.json"))
 	if err != nil {
@@ -319,6 +327,10 @@ func drive(args []string) int {
 		return 2
 	}
 	fmt.Printf("done property=%s runs=%d violations=%d known=%d wall=%.1fs\n", c.ID(), runsDone, newViol, len(knownSeen), time.Since(start).Seconds())
+	if exit == 0 && infraCount > 0 {
+		fmt.Printf("INFRA: %d runs were inconclusive (watchdog, deadlock, non-determinism or harness trouble); not a verdict\n", infraCount)
+		return 2
+	}
 	return exit
 }
 
